@@ -218,6 +218,10 @@ pub trait Prog: 'static {
     const BASE: [usize; MAXACT];
     /// run operation `k` of actor `a` (both concrete at every call site)
     fn step(a: usize, k: usize);
+    /// stuck detector verdict for the outer operation (see `sched::Scenario::stuck`)
+    fn stuck() {
+        kani::assume(false);
+    }
 }
 
 pub static mut PC: [u8; MAXACT] = [0; MAXACT];
@@ -270,6 +274,22 @@ impl<P: Prog, const OUTER: usize> Scenario for Runner<P, OUTER> {
             a += 1;
         }
         kani::assume(done);
+    }
+    #[inline(always)]
+    fn others_done() -> bool {
+        let mut a = 0;
+        let mut all = true;
+        while a < P::NACT {
+            if a != OUTER && pc(a) < P::LEN[a] {
+                all = false;
+            }
+            a += 1;
+        }
+        all
+    }
+    fn stuck() {
+        P::stuck();
+        kani::assume(false);
     }
 }
 
